@@ -91,6 +91,11 @@ func c04Context(c *Ctx) {
 				return
 			}
 			if nt := namedOf(fa.X.Type()); nt != nil && nt.Obj().Pkg() != nil && nt.Obj().Pkg().Path() == decimalPath && (nt.Obj().Name() == "Context" || nt.Obj().Name() == "Big") {
+				if al, _, local := localRoundingContext(st); al != nil && local {
+					// a private copy of Context128 that only rounds to an integer in a chosen direction (how the library
+					// defines Floor): arithmetic never sees it
+					return
+				}
 				n++
 				c.R.Add(rule, "field store in "+c.P.FuncKey(f), c.P.InstrPos(in), Violation, "the module writes field "+fieldName(fa)+" of a decimal "+nt.Obj().Name()+": precision / rounding mode would no longer be the 34-digit half-even context")
 			}
